@@ -66,7 +66,8 @@ Variable H : Type.
 Variable hash : string -> H.
 Variable verify : H -> string -> bool.
 Variable empty_hash : H.
-Hypothesis verify_hash : forall p p', verify (hash p) p' = true <-> p = p'.
+Variable norm : string -> string.
+Hypothesis verify_hash : forall p p', verify (hash p) p' = true <-> norm p = norm p'.
 Hypothesis verify_empty : forall p, verify empty_hash p = false.
 
 Local Notation step' := (step hash verify empty_hash).
@@ -81,7 +82,7 @@ Definition consistent (s : sstate') : Prop :=
 Lemma gs_fields s parsed c fp s1 r fp1 :
   get_session verify s parsed c fp = (s1, r, fp1) -> services s1 = services s /\ registry s1 = registry s.
 Proof.
-  intros G. destruct (get_session_users H hash verify empty_hash verify_hash verify_empty _ _ _ _ _ _ _ G) as (_ & A & B & _). auto.
+  intros G. destruct (get_session_users H hash verify empty_hash norm verify_hash verify_empty _ _ _ _ _ _ _ G) as (_ & A & B & _). auto.
 Qed.
 
 (* one step keeps the registry consistent, provided no two stored service ids
@@ -95,13 +96,14 @@ Proof.
   { intros A B. unfold consistent. rewrite A, B. now split. }
   assert (forall parsed c fpa s1 r fp1, get_session verify s parsed c fpa = (s1, r, fp1) -> consistent s1) as KG.
   { intros parsed c fpa s1 r fp1 G. destruct (gs_fields _ _ _ _ _ _ _ G) as [A B]. unfold consistent. rewrite A, B. now split. }
-  destruct o as [n pw pr|n|n|cl|id md|id|n sp|n|c|rq c|n c|id|id|dt|]; cbn [step] in E.
+  destruct o as [n pw pr|n|n|cl|id b|id|n sp|n|c|rq c|n c|id|id|dt|]; cbn [step] in E.
   - unfold put_user in E. repeat dmh E; injection E as <- <- <-; now apply Same.
   - unfold del_user in E. repeat dmh E; injection E as <- <- <-; now apply Same.
   - unfold get_user in E. repeat dmh E; injection E as <- <- <-; now apply Same.
   - unfold list_keys in E. repeat dmh E; injection E as <- <- <-; now apply Same.
   - (* PutService *)
-    unfold put_service in E. destruct (store_get (services s) id fp) as [g fp1] eqn:G.
+    unfold put_service in E. destruct (select_md b) as [md|]; [|injection E as <- <- <-; now apply Same].
+    unfold put_service_md in E. destruct (store_get (services s) id fp) as [g fp1] eqn:G.
     assert (forall reg1,
               (forall e m, alookup e reg1 = Some m -> alookup e (registry s) = Some m) ->
               (forall e m, alookup e (registry s) = Some m -> e <> md_entity md ->
@@ -235,7 +237,7 @@ Proof.
                               let '(t1, r', fp1') := get_session verify t parsed match o with Login c | Sso _ c | Launch _ c => c | _ => NoCreds end fpa in
                               same_but_registry s1 t1 /\ r = r' /\ fp1 = fp1') as KG.
   { intros. now apply get_session_sbr. }
-  destruct o as [n pw pr|n|n|kc|id md|id|n sp|n|c|rq c|n c|id|id|dt|]; cbn [step].
+  destruct o as [n pw pr|n|n|kc|id b|id|n sp|n|c|rq c|n c|id|id|dt|]; cbn [step].
   1-4,7-8,12-15:
     destruct s as [us ss sv sc rg cl ra lg], t as [ut st svt sct rgt clt rat lgt]; cbn in U, Se, Sv, Sc, Cl, Ra, Lg, Rg;
     subst ut st svt sct clt rat lgt;
@@ -243,7 +245,8 @@ Proof.
            set_users, set_sessions, set_shortcuts, set_clock, set_registry; cbn [users sessions clock rand authlog services shortcuts registry];
     repeat dm; unfold same_but_registry; cbn; auto 10.
   - (* PutService *)
-    unfold put_service. rewrite <- Sv. destruct (store_get (services s) id fp) as [g fp1].
+    unfold put_service. destruct (select_md b) as [md|]; [|cbn; auto]. unfold put_service_md.
+    rewrite <- Sv. destruct (store_get (services s) id fp) as [g fp1].
     destruct g as [prev| |]; cbn; auto; destruct (store_mut fp1) as [[|] fp2]; cbn; auto.
     + split; [|auto]. unfold same_but_registry; cbn. repeat (split; [assumption|]). split; [now rewrite Sv|]. repeat (split; [assumption|]).
       apply alookup_ainsert_ext. destruct (md_entity prev =? md_entity md)%string; [exact Rg|now apply alookup_aremove_ext].
@@ -333,10 +336,10 @@ Proof.
   destruct (String.eqb_spec i1 k), (String.eqb_spec i2 k); congruence.
 Qed.
 Example restart_hypothesis_satisfiable :
-  hist_nodup H0 hash0 verify0 empty0 (init_state H0 0) [PutService "a" ex_md1; Restart] [].
+  hist_nodup H0 hash0 verify0 empty0 (init_state H0 0) [PutService "a" (MdSingle ex_md1); Restart] [].
 Proof.
   cbn [hist_nodup]. split; [apply nodup_entity_nil|].
-  change (step hash0 verify0 empty0 (init_state H0 0) (PutService "a" ex_md1) [])
+  change (step hash0 verify0 empty0 (init_state H0 0) (PutService "a" (MdSingle ex_md1)) [])
     with (set_services (init_state H0 0) [("a", ex_md1)] [("https://sp1/metadata", ex_md1)], [@rnocontent H0], @nil fault).
   cbn [hist_nodup]. split; [apply nodup_entity_single|]. cbn [step]. cbn [hist_nodup]. split; [apply nodup_entity_single|exact I].
 Qed.
